@@ -220,7 +220,7 @@ def _check_numvars(ctx, rep, kind, bwd: Func, objp: str, flag: bool):
         rep.undecided("I3", init, "_num_variables [%s]" % label, "expected one store under this flag, found %d" % len(stores))
         return
     try:
-        got = _size_poly(stores[0].value, init)
+        got = _size_poly(_specialise_flag(stores[0].value, "on_para_eq_constraint", flag), init)
         _, _, _, last = _domains(kind, flag)[0]
         flags = {"on_para_eq_constraint": flag}
         bi = SymInterp(bwd, flags)
@@ -245,6 +245,31 @@ def _check_numvars(ctx, rep, kind, bwd: Func, objp: str, flag: bool):
                           % (got, kind, want, label), node=stores[0], label=label)
     except Undecided as e:
         rep.undecided("I3", init, stores[0], str(e))
+
+
+def _specialise_flag(e, flagname, value: bool):
+    """conditional expressions on the flag inside `e` are replaced by the branch taken for this value of the flag"""
+    import copy as _copy
+
+    def truth(t):
+        if isinstance(t, ast.Name) and t.id == flagname:
+            return value
+        if isinstance(t, ast.UnaryOp) and isinstance(t.op, ast.Not):
+            v = truth(t.operand)
+            return None if v is None else (not v)
+        if isinstance(t, ast.Compare) and len(t.ops) == 1 and isinstance(t.left, ast.Name) and t.left.id == flagname \
+                and isinstance(t.comparators[0], ast.Constant) and t.comparators[0].value in (True, False) and isinstance(t.ops[0], (ast.Eq, ast.Is)):
+            return value == t.comparators[0].value
+        return None
+
+    class T(ast.NodeTransformer):
+        def visit_IfExp(self, n):
+            self.generic_visit(n)
+            v = truth(n.test)
+            if v is None:
+                return n
+            return n.body if v else n.orelse
+    return T().visit(_copy.deepcopy(e))
 
 
 def _branch_flag(node, flagname):
@@ -770,6 +795,25 @@ def _check_constants(ctx, rep):
                           (OBJ + "gate.Gate.calc_proj_eq_constraint_with_var", "new_var", {("0",): 1, ("1:c_sys.dim ** 2",): 0})):
         f = ix.func(qn)
         st = _store_consts(f, var)
+        named = bool(st)
+        if not st:
+            # whatever the working copy is called: the one local of this function that receives constant subscript stores
+            locs = {n.targets[0].id for n in own_nodes(f.node) if isinstance(n, ast.Assign) and len(n.targets) == 1 and isinstance(n.targets[0], ast.Name)}
+            cands = [(v_, _store_consts(f, v_)) for v_ in sorted(locs)]
+            cands = [(v_, s_) for v_, s_ in cands if s_]
+            if len(cands) == 1:
+                st = cands[0][1]
+        # slice bounds held in a local (num = c_sys.dim ** 2; x[1:num]) are written out
+        sd_ = single_defs(f)
+        st2 = []
+        for i_, v_, n_ in st:
+            t_ = n_.targets[0]
+            idx_ = []
+            while isinstance(t_, ast.Subscript):
+                idx_.insert(0, unparse(inline(f, t_.slice, depth=3, defs=sd_)) if any(isinstance(x_, ast.Name) and x_.id in sd_ for x_ in ast.walk(t_.slice)) else unparse(t_.slice))
+                t_ = t_.value
+            st2.append((tuple(idx_), v_, n_))
+        st = st2
         got = {i: const(v) for i, v, _ in st}
         want = dict(idxs)
         # accept `1:dim ** 2` spellings
@@ -777,13 +821,20 @@ def _check_constants(ctx, rep):
         for i, v in got.items():
             i2 = tuple(x.replace("self.dim", "c_sys.dim").replace("self.composite_system.dim", "c_sys.dim") for x in i)
             norm[i2] = v
-        rep.check(norm == want, "I5", f, "row-0 stores", "row 0 := e0 (entry 0 := 1, entries 1.. := 0)",
-                  "row 0 must become e0; stores found: %s" % got, node=f.node)
+        if norm != want and not named:
+            # no store into the working copy the rule knows by name, and the stores found elsewhere are not of the expected form
+            # (e.g. they go through a view of row 0): not read, so nothing is claimed
+            rep.undecided("I5", f, "row-0 stores", "no constant stores into `%s` found (stores seen: %s)" % (var, got))
+        else:
+            rep.check(norm == want, "I5", f, "row-0 stores", "row 0 := e0 (entry 0 := 1, entries 1.. := 0)",
+                      "row 0 must become e0; stores found: %s" % got, node=f.node)
     f = ix.func(OBJ + "gate.Gate.convert_var_to_stacked_vector")
-    st = _store_consts(f, "head")
     ins = [n for n in own_nodes(f.node) if isinstance(n, ast.Call) and (dotted(n.func) or "").endswith("insert")]
+    # the inserted vector by role: the third argument of the one np.insert, whatever it is called
+    head_name = ins[0].args[2].id if len(ins) == 1 and len(ins[0].args) >= 3 and isinstance(ins[0].args[2], ast.Name) else "head"
+    st = _store_consts(f, head_name)
     ok = len(st) == 1 and st[0][0] == ("0",) and is_num(st[0][1], 1) and len(ins) == 1 and len(ins[0].args) >= 3 and is_num(ins[0].args[1], 0) \
-        and unparse(ins[0].args[2]) == "head"
+        and unparse(ins[0].args[2]) == head_name
     rep.check(ok, "I5", f, ins[0] if ins else "insert", "e0 of length d^2 inserted in front", "stacked vector must get e0 in front", node=f.node)
 
     # ---- mprocess: implied first row of last block = e0 - sum, inserted at hs_size*(m-1)
@@ -1000,5 +1051,7 @@ def _check_recreation(ctx, rep, base: Class):
                     con = "%s.%s carries %s" % (c.name, mname, p)
                     if ok:
                         rep.holds("I7", m, con, why, node=call)
+                    elif ok is None:
+                        rep.undecided("I7", m, con, why)
                     else:
                         rep.violation("I7", m, con, "field '%s' of the re-created %s is reset: %s" % (p, c.name, why), node=call)
